@@ -407,6 +407,7 @@ struct C13 : vr::Driver {
         Hist H2 = H;
         H2.push_back(op);
         transitions++;
+        vr::progress();
         Observation ob = execute(bi, H2);
         if (!ob.verdict.empty()) {
           fail(H2, ob.verdict);
